@@ -30,10 +30,19 @@ import (
 
 func main() {
 	vkit.Main("C07", "exploration", func(r *vkit.Report) {
-		maxLen := r.Scale(6, 8)
-		cfg := smallCfg{fullMaskLen: r.Scale(6, 7), peekLen: r.Scale(6, 7)}
-		cutLen, cutParts := r.Scale(5, 6), r.Scale(4, 5)
-		pairLen := r.Scale(4, 5)
+		// The 32-bit variant (thorough only) repeats the quick-sized workload as a 386 binary and adds
+		// the > 2^31 post-end polls that only mean something with a 32-bit int.
+		is386 := r.VariantHas("386")
+		scale := func(q, t int) int {
+			if is386 {
+				return q
+			}
+			return r.Scale(q, t)
+		}
+		maxLen := scale(6, 8)
+		cfg := smallCfg{fullMaskLen: scale(6, 7), peekLen: scale(6, 7)}
+		cutLen, cutParts := scale(5, 6), scale(4, 5)
+		pairLen := scale(4, 5)
 		randLen := 300
 
 		r.SetRule(fmt.Sprintf("evaluation = one (operation, input, parameter) triple run in every flavour that exists (package iterator, package stream, "+
@@ -45,7 +54,7 @@ func main() {
 			"Filter/While with every predicate mask by position for length <= %d (longer: every mask for 4 sequences per length and 10 fixed masks for every sequence); "+
 			"First/Last n = 0..len+1; Chunk size 1..len+1; Compact, CompactFunc/Runs with 5 equivalences; WithPeek with every Peek/Next pattern of length min(len+2,%d) then drained; "+
 			"Flatten/FlattenSlices/Join over every cut of every sequence of length <= %d into <= %d possibly-empty parts; Equal over all pairs of length <= %d and every one-place variation; "+
-			"Counter/Repeat n = -3..9. For every cut of every sequence of length <= 4 also nested Joins over ONE array of leaves (Join(Join(L[:m]...), trailer) then Join(L[m:]...) for every m; groups of two joined, then the groups joined), both flavours; Runs also with undrained inner runs (4 read policies). Source position: every one-source triple, WithPeek pattern, Runs walk and Flatten/Join cut again directly over the library's own source types, stopped after every j requests, rest of the source compared; named idioms (Join(First(it,k), it), head/rest, paging with First and Chunk, While/rest) for every k. Long stretches: Flatten / FlattenSlices / Filter / Compact / CompactFunc over one item, N skipped items, one item (N = 20-30 million for iterators, the same for streams; stack depth must not grow with N). Then random inputs of length <= %d and random pipelines of 2-4 combinators against the composed reference.",
+			"Counter/Repeat n = -3..9. For every cut of every sequence of length <= 4 also nested Joins over ONE array of leaves (Join(Join(L[:m]...), trailer) then Join(L[m:]...) for every m; groups of two joined, then the groups joined), both flavours; Runs also with undrained inner runs (4 read policies). Wrap after use: for every sequence of length <= 5, each of 14 combinators is used for j requests (every j up to and past its end) and only then wrapped in another combinator (the same kind always, six other kinds alternately) or handed to Collect, both flavours. Source position: every one-source triple, WithPeek pattern, Runs walk and Flatten/Join cut again directly over the library's own source types, stopped after every j requests, rest of the source compared; named idioms (Join(First(it,k), it), head/rest, paging with First and Chunk, While/rest) for every k. Long stretches: Flatten / FlattenSlices / Filter / Compact / CompactFunc over one item, N skipped items, one item (N = 20-30 million for iterators, the same for streams; stack depth must not grow with N). Then random inputs of length <= %d and random pipelines of 2-4 combinators against the composed reference.",
 			maxLen, cfg.fullMaskLen, cfg.peekLen, cutLen, cutParts, pairLen, randLen))
 		r.SetExhaustive(true)
 		r.SetExtra("exhaustive_scope", "the small-scope groups (small/*) enumerate their stated bounds completely; the rand/* groups are seeded samples")
@@ -56,6 +65,7 @@ func main() {
 		r.Assume("source position: directly over the library's own sources (iterator.Slice / Chan / Counter / Repeat, stream.FromIterator(iterator.Slice), stream.Chan - no probe in between) the source must have advanced by exactly min(need(j), len) items after j requests: fewer is impossible for an implementation that takes its items from the source, more is forbidden by the laziness clause. For streams the position is read from the underlying iterator / channel. Package iterator has no sole-user rule: Join(First(it,k), it), head/rest splits and paging loops with First / Chunk / While are judged against the documented sequence (While takes the failing item with it)")
 		r.Assume("the value a source returns together with the end / an error is meaningless (Iterator doc): every int probe source returns changing non-zero garbage there; reference outputs never contain it. Outer sources of Flatten / FlattenSlices return a usable non-nil iterator / stream / a non-empty slice there")
 		r.Assume("reducers are documented to consume: after Collect / Last / Reduce / Equal (all sequences equal, any arity incl. 1) over the library's own sources the source must be exhausted; One must have taken min(len,2)..len items; Equal with a first disagreement at p at least min(p,len) of each")
+		r.Assume("32-bit variant (thorough, GOARCH=386): quick-sized workload plus, for 10 constructors / combinators that keep a counter, run to their end, 2^31+2^10 (Repeat: 2^32+2^10) further polls that must all report the end; on 64-bit builds a counter that keeps moving after the end cannot wrap within reach and is not observable")
 		r.Assume("argument integrity: no operation of this property is documented to modify a slice it is handed; every slice argument (variadic source lists, item slices, slices of slices) is a sub-slice with spare capacity of a sentinel-guarded array that must be unchanged after every request. stream.FlattenSlices overwriting the items INSIDE a slice it has consumed is recorded, not judged")
 		r.Assume("non-termination is decided by a call budget, not by time: callbacks and probe sources may be invoked at most 200*(n+16) times per run of one flavour over n items (legitimate runs need a few times n)")
 		r.Assume("parameters inside the documented domain only: chunkSize >= 1, First/Last n >= 0, xslices.Repeat n >= 0")
@@ -66,7 +76,7 @@ func main() {
 
 		r.Cases("regress", 1, 1, func(c *vkit.Case) { a := newAcc(c); regress(a); a.flush() })
 		r.Cases("small/ctor", 1, 1, func(c *vkit.Case) { a := newAcc(c); smallCtor(a, -3, 9); a.flush() })
-		r.Cases("small/ctor-sources", 1, 1, func(c *vkit.Case) { a := newAcc(c); ctorSources(a, r.Scale(7, 8)); a.flush() })
+		r.Cases("small/ctor-sources", 1, 1, func(c *vkit.Case) { a := newAcc(c); ctorSources(a, scale(7, 8)); a.flush() })
 		groups := []struct {
 			name string
 			fn   func(a *acc, sp *seqSpace, idx int, cfg smallCfg)
@@ -109,13 +119,28 @@ func main() {
 		})
 		r.Cases("small/equal", N, W, func(c *vkit.Case) { a := newAcc(c); smallEqual(a, sp, c.Index, pairLen); a.flush() })
 
+		// Wrap after use (wrap.go): sequences up to length 5, every j.
+		wrapN := sp.offset[6]
+		r.Cases("small/wrap", wrapN, W, func(c *vkit.Case) { a := newAcc(c); wrapAfterUse(a, sp.seqs[c.Index]); a.flush() })
+
+		// 32-bit int only: more than 2^31 polls after the end (wrap.go).
+		if intIs32() && r.Thorough() {
+			polls := pollScenarios()
+			r.Cases("poll32", len(polls), W, func(c *vkit.Case) { a := newAcc(c); runPoll(a, polls[c.Index]); a.flush() })
+			var ran int64
+			for _, sc := range polls {
+				ran += r.Table("32-bit: polls after the end (each scenario > 2^31)", sc.name)
+			}
+			r.Floor("32-bit post-end polling scenarios run", ran, int64(len(polls)))
+		}
+
 		// Long stretches of skipped input (long.go); a stack overflow here kills the process and is
 		// reported by check.sh as a crash violation naming the scenario.
-		longs := longScenarios(r.Scale(20_000_000, 30_000_000), r.Scale(20_000_000, 30_000_000), 1_000_000)
+		longs := longScenarios(scale(20_000_000, 30_000_000), scale(20_000_000, 30_000_000), 1_000_000)
 		r.Cases("long", len(longs), 1, func(c *vkit.Case) { a := newAcc(c); runLong(a, longs[c.Index]); a.flush() })
 
-		nSingle := r.Scale(150000, 600000)
-		nPipe := r.Scale(250000, 900000)
+		nSingle := scale(150000, 600000)
+		nPipe := scale(250000, 900000)
 		// a short sequential prelude: the first non-trivial pipeline over a short input is the sample
 		r.Cases("rand/pipe-short", 64, 1, func(c *vkit.Case) {
 			a := newAcc(c)
@@ -154,6 +179,7 @@ func main() {
 		r.Floor("source-position checks", r.Table("totals", "source-position checks (rest of the library's own source read after j requests)"), int64(100*N))
 		r.Floor("idiom Join(First(it,k), it) over the library's own sources", r.Table("idioms over the library's own sources", "Join(First(it,k), it)"), int64(2*N))
 		r.Floor("source-position over Counter / Repeat sources", r.Table("source-position: constructor-shaped sources used", "Counter / Repeat"), 500)
+		r.Floor("wrap-after-use triples", r.Table("triples by operation", "wrap-after-use"), int64(50*wrapN))
 		r.Floor("random pipelines checked", r.Table("triples by operation", "pipeline"), int64(nPipe))
 		r.Floor("Next calls after the end checked", r.Table("totals", "Next calls after the end checked"), int64(3*N))
 		r.Floor("regression scenarios D1 (Last, n == 0)", r.Table("regression scenarios", "D1 iterator.Last / stream.Last with n == 0"), 3)
